@@ -38,7 +38,7 @@ def _parse_opts(rest):
     head, opts = parts[0], {}
     substs = []
     for p in parts[1:]:
-        m = re.match(r'subst\s+"(.*)"\s*=>\s*"(.*)"(?:\s+(R\d))?$', p)
+        m = re.match(r'subst\s+"(.*)"\s*=>\s*"(.*)"(?:\s+(R\d+))?$', p)
         if m:
             substs.append((m.group(1).replace('\\"', '"').replace('\\n', '\n'), m.group(2).replace('\\"', '"').replace('\\n', '\n'), m.group(3) or 'R6'))
             continue
@@ -468,10 +468,10 @@ class Gen:
                 m = re.match(r'ghost\s+(start|end)()\s*:\s*(.*)$', dd) or re.match(r'ghost\??\s+(before|after)\s+"(.*?)"\s*:\s*(.*)$', dd)
                 if m:
                     ghosts.append((m.group(1), m.group(2), m.group(3), dd.startswith('ghost?'))); last, lastk = 'ghost', 0; continue
-                m = re.match(r'subst\?\s+"(.*)"\s*=>\s*"(.*)"(?:\s+(R\d))?$', dd)
+                m = re.match(r'subst\?\s+"(.*)"\s*=>\s*"(.*)"(?:\s+(R\d+))?$', dd)
                 if m:
                     opt_substs.append((m.group(1).replace('\\"', '"').replace('\\n', '\n'), m.group(2).replace('\\"', '"').replace('\\n', '\n'), m.group(3) or 'R5')); continue
-                m = re.match(r'subst\s+"(.*)"\s*=>\s*"(.*)"(?:\s+(R\d))?$', dd)
+                m = re.match(r'subst\s+"(.*)"\s*=>\s*"(.*)"(?:\s+(R\d+))?$', dd)
                 if m:
                     substs.append((m.group(1).replace('\\"', '"').replace('\\n', '\n'), m.group(2).replace('\\"', '"').replace('\\n', '\n'), m.group(3) or 'R5')); continue
                 m = re.match(r'thread(\??)\s+"(.*)"\s*=>\s*"(.*)"$', dd)
